@@ -14,7 +14,9 @@
                      3 NewRTUClientWithConfig(conf + packet.AsRTUErrorPacket / ParseRTUResponse, the
                        variants that do NOT check the CRC, which it must override)  4 NewRTUClient()
                serial 0..2 NewSerialClient(port, options in different orders / given twice)
-               The model does NOT depend on it.  Of the configuration the model depends on: which
+               The value may carry 10 x (how the ClientHooks are implemented): 0 methods on a pointer,
+               1 methods on a struct value, 2 methods on a named func type; ctor = value mod 10.
+               The model does NOT depend on either.  Of the configuration the model depends on: which
                pair asProtocolErrorFunc / parseResponseFunc ends up in the client (= kind), whether
                Hooks are set, whether the client is connected / has a port, whether the port is a
                Flusher.  It does not depend on ReadTimeout / WriteTimeout (their expiry is a script
@@ -27,7 +29,11 @@
      script    [swd_err; write_err; flush_err; [step...]],  step = [ctx; timer_fired; pick_ctx; rd; bytes]
                ctx: 0 not done, 1 done with context.Canceled, 2 done with context.DeadlineExceeded
                rd: 0 data, 1 os.ErrDeadlineExceeded, 2 io.EOF, 3 other error -- each with the bytes
-               the Read returned together with it (n > 0 with an error is allowed by io.Reader)
+               the Read returned together with it (n > 0 with an error is allowed by io.Reader).
+               The deadline error of rd 1 is a *net.OpError (Timeout() = true) around
+               os.ErrDeadlineExceeded; 4 is the bare os.ErrDeadlineExceeded; 5 is
+               fmt.Errorf("...: %w", os.ErrDeadlineExceeded) (no Timeout method); 6 is io.EOF wrapped
+               with %w.  The model reads 4, 5 as 1 and 6 as 2.
      want      []  |  [0; projected response]  |  [1; unit; fc; code]     the reply the scripted device
                is sending (used only by the verdicts, never by the model)
      result    ok [tid; projected response] | err [value-was-nil; is-ClientError; class...] | panic | [99]
@@ -58,7 +64,10 @@ Definition dec_kind (z : Z) : option kind :=
   match z with 0%Z => Some KTcp | 1%Z => Some KRtuNet | 2%Z => Some KSerial | _ => None end.
 Definition dec_rd (k : Z) (b : list N) : option rd :=
   match k with
-  | 0%Z => Some (RData b) | 1%Z => Some (RTimeout b) | 2%Z => Some (REof b) | 3%Z => Some (RIoErr b) | _ => None
+  | 0%Z => Some (RData b) | 1%Z => Some (RTimeout b) | 2%Z => Some (REof b) | 3%Z => Some (RIoErr b)
+  (* other dynamic shapes of the same errors; the client must treat them alike (errors.Is) *)
+  | 4%Z | 5%Z => Some (RTimeout b) | 6%Z => Some (REof b)
+  | _ => None
   end.
 Definition dec_step (v : val) : option step :=
   match v with
@@ -126,7 +135,7 @@ Definition dec_case2 (a : list val) : option ccase :=
   | _ => None
   end.
 (* the constructor without configuration: the transport calls cannot be observed *)
-Definition blind (c : ccase) : bool := Z.eqb (cc_ctor c) 4.
+Definition blind (c : ccase) : bool := Z.eqb (cc_ctor c mod 10) 4.
 
 (* ---------- projections model -> val ---------- *)
 Definition proj_site (s : site) : val :=
